@@ -1,4 +1,5 @@
 import ButlerModel.Model.Paging
+import ButlerModel.Gen.PostprocessingPy
 /-! # C16 — ordering, limits, paging and counts describe the same result set -/
 namespace C16
 open Paging
@@ -202,3 +203,122 @@ example : wrapper (some (-3)) [1, 2, 3] = ([1, 2, 3], false) ∧ wrapper (some (
     ∧ wrapper (some (-1)) [7] = ([7], false) ∧ wrapper (some (-3)) [1, 2] = ([1, 2], false) := by decide
 
 end C16
+
+/-! ## T-tie: `Postprocessing.apply` **as translated from `_postprocessing.py` on every run**
+(`translate/gen_postprocessing.py`: the guards, `continue`, `yield`, the in-place decrement of `_limit` and the `return` at
+zero are kept; the region tests of one row are the predicate `p`). -/
+namespace C16.Translated
+open Paging
+variable {α : Type}
+
+/-- the loop body of the translated `apply`, as a function of the fold state -/
+def stepPy (p : α → Bool) (acc : List α × Option Nat × Bool) (row : α) : List α × Option Nat × Bool :=
+  let (out, limit, stopped) := acc
+  if stopped then (out, limit, stopped) else
+  (if (!(p row)) then (out, limit, false)
+   else
+     let out := out ++ [row]
+     (if limit.isSome then
+        let limit := limit.map (· - 1)
+        (if (limit == some 0) then (out, limit, true) else (out, limit, false))
+      else (out, limit, false)))
+
+theorem foldl_stopped (p : α → Bool) (rows : List α) (out : List α) (lim : Option Nat) :
+    rows.foldl (stepPy p) (out, lim, true) = (out, lim, true) := by
+  induction rows with
+  | nil => rfl
+  | cons r rs ih => simp only [List.foldl_cons, stepPy, if_true]; exact ih
+
+theorem foldl_spec (p : α → Bool) : ∀ (rows : List α) (out : List α) (lim : Option Nat), lim ≠ some 0 →
+    ((rows.foldl (stepPy p) (out, lim, false)).1, (rows.foldl (stepPy p) (out, lim, false)).2.1) =
+      (out ++ (applyPage p lim rows).1, (applyPage p lim rows).2) := by
+  intro rows
+  induction rows with
+  | nil =>
+    intro out lim h
+    cases lim with
+    | none => simp [applyPage]
+    | some l =>
+      cases l with
+      | zero => exact absurd rfl h
+      | succ l => simp [applyPage]
+  | cons r rs ih =>
+    intro out lim h
+    cases lim with
+    | none =>
+      simp only [List.foldl_cons, stepPy, Bool.false_eq_true, if_false, Option.isSome_none]
+      by_cases hp : p r
+      · simp only [hp, Bool.not_true, Bool.false_eq_true, if_false]
+        rw [ih (out ++ [r]) none (by simp)]
+        simp [applyPage, hp]
+      · simp only [hp, Bool.not_false, if_true]
+        rw [ih out none (by simp)]
+        simp [applyPage, hp]
+    | some l =>
+      cases l with
+      | zero => exact absurd rfl h
+      | succ l =>
+        simp only [List.foldl_cons, stepPy, Bool.false_eq_true, if_false, Option.isSome_some, if_true, Option.map_some,
+          Nat.add_sub_cancel]
+        by_cases hp : p r
+        · simp only [hp, Bool.not_true, Bool.false_eq_true, if_false]
+          cases l with
+          | zero =>
+            simp only [beq_self_eq_true, if_true]
+            rw [foldl_stopped]
+            simp [applyPage, hp]
+          | succ l =>
+            have : (some (l + 1) == some 0) = false := by simp
+            simp only [this, Bool.false_eq_true, if_false]
+            rw [ih (out ++ [r]) (some (l + 1)) (by simp)]
+            simp [applyPage, hp]
+        · simp only [hp, Bool.not_false, if_true]
+          rw [ih out (some (l + 1)) (by simp)]
+          simp [applyPage, hp]
+
+/-- **`Postprocessing.apply` as translated from the source on every run is the page function of
+`Model/Paging.lean`** — for every post-filter, every remaining limit (also none and 0) and every page. -/
+theorem translated_apply_eq (p : α → Bool) (lim : Option Nat) (rows : List α) :
+    Gen.PostPy.applyPy p true lim rows = applyPage p lim rows := by
+  unfold Gen.PostPy.applyPy
+  simp only [Bool.not_true, Bool.false_eq_true, if_false]
+  by_cases h0 : lim = some 0
+  · subst h0; simp [applyPage]
+  · have hb : (lim == some 0) = false := by
+      cases lim with
+      | none => rfl
+      | some l => cases l with
+        | zero => exact absurd rfl h0
+        | succ l => simp
+    simp only [hb, Bool.false_eq_true, if_false]
+    have := foldl_spec p rows [] lim h0
+    simp only [List.nil_append] at this
+    exact this
+
+/-- without post-processing the page passes through and the limit is left to SQL -/
+theorem translated_apply_inactive (p : α → Bool) (lim : Option Nat) (rows : List α) :
+    Gen.PostPy.applyPy p false lim rows = (rows, lim) := by
+  simp [Gen.PostPy.applyPy]
+
+/-- iterating the pages of a query through the translated `apply`, threading its in-place limit -/
+def iteratePy (p : α → Bool) : Option Nat → List (List α) → List α
+  | _, [] => []
+  | st, pg :: pgs => (Gen.PostPy.applyPy p true st pg).1 ++ iteratePy p (Gen.PostPy.applyPy p true st pg).2 pgs
+
+theorem iteratePy_eq (p : α → Bool) : ∀ (pgs : List (List α)) (st : Option Nat), iteratePy p st pgs = iterate p st pgs := by
+  intro pgs
+  induction pgs with
+  | nil => intro st; rfl
+  | cons pg pgs ih => intro st; simp only [iteratePy, iterate, translated_apply_eq, ih]
+
+/-- **Paging through the source's own `apply`**: whatever the raw page size, iterating the pages yields exactly the
+post-filtered rows cut at the limit (every row once, in order; a limit gives a prefix of the right length). -/
+theorem translated_paging_concat (p : α → Bool) (k : Nat) (hk : 0 < k) (limit : Option Nat) (rows : List α) :
+    iteratePy p limit (pages k rows.length rows) = spec p limit rows := by
+  rw [iteratePy_eq]; exact C16.paging_concat p k hk limit rows
+
+/-- non-vacuity: limit 2 over pages of 2 with a rejected row in the first page -/
+example : iteratePy (fun n : Nat => n % 2 == 1) (some 2) [[1, 2], [3, 5], [7]] = [1, 3] := by decide
+
+end C16.Translated
+
